@@ -398,7 +398,7 @@ def scenRxh (link items obs : String) : Verdict :=
         | none => .corr a
       else
         -- memory oracle, per poll, against the model's bookkeeping
-        let rec check (ps : List (String × Nat × Nat × Nat)) (ss : List (String × Nat)) (prevAnn : Nat) : Option String :=
+        let rec check (ps : List (String × Nat × Nat × Nat)) (ss : List (String × Nat)) (_prevAnn : Nat) : Option String :=
           match ps, ss with
           | (r, live, peak, plen) :: pt, (_, ann) :: st =>
             -- a call that never returned (the script ended inside a frame and the mock unwound the spin) is not measured
@@ -407,7 +407,9 @@ def scenRxh (link items obs : String) : Verdict :=
               some s!"after a poll the receiver holds {live - base} bytes with {ann} frames announced"
             else if ann == 0 && live > base then
               some s!"receiver holds {live - base} bytes more than a fresh one at a packet boundary ({r})"
-            else if peak > base + heapBound (max prevAnn (max ann (plen / 7 + 2))) + 4 * plen + 2048 then
+            -- inside a call only the absolute ceiling is checked (a builder may be created and dropped within one call,
+            -- and the property constrains what is held *between* calls): largest packet in flight + delivered payload
+            else if peak > base + heapBound 4096 + 4 * plen + 2048 then
               some s!"peak of {peak - base} bytes inside a poll ({r})"
             else check pt st ann
           | _, _ => none
